@@ -107,6 +107,25 @@ void *memcpy(void *dest, const void *src, size_t n)
   }
   return dest;
 }
+#elif !VERIF_IS_NATIVE && defined(RT_MEMCPY_WORDS)
+/* the same assumption for plain bounded runs (no loop contracts): every copy
+ * the register code makes is a whole number of 16-bit words and is done word
+ * by word (unwound by --unwindset memcpy.0:N); anything else octet by octet */
+void *memcpy(void *dest, const void *src, size_t n)
+{
+  if ((n & 1u) == 0u) {
+    uint16_t *d = dest;
+    const uint16_t *s = src;
+    for (size_t i = 0; i < n / 2u; i++)
+      d[i] = s[i];
+  } else {
+    unsigned char *d = dest;
+    const unsigned char *s = src;
+    for (size_t i = 0; i < n; i++)
+      d[i] = s[i];
+  }
+  return dest;
+}
 #endif
 
 #endif /* STUBS_REGISTER_CALLBACKS_H */
